@@ -424,6 +424,15 @@ class Mineral:
                 y, self.n_grains
             )
             deformation_gradient_diff = velocity_gradient @ deformation_gradient
+            if strain_rate_max == 0:
+                # No deformation (e.g. zero velocity gradient), no texture evolution.
+                # Avoids NaNs from the nondimensionalisation below.
+                return np.hstack(
+                    (
+                        deformation_gradient_diff.flatten(),
+                        np.zeros(self.n_grains * 10),
+                    )
+                )
             deformation_gradient_spin = _tensors.polar_decompose(
                 deformation_gradient_diff
             )[1]
